@@ -278,3 +278,125 @@ pub(crate) mod capture {
         unsafe { OUT[i] }
     }
 }
+
+// ------------------------------------------------------------ command-language spec (C14)
+pub(crate) mod cmdspec {
+    /// Outcome of the reference integer recogniser.
+    #[derive(Clone, Copy, PartialEq)]
+    pub enum IntR {
+        /// not an integer (the token may still be something else)
+        NotInt,
+        /// an invalid token
+        Bad,
+        Val(i64),
+    }
+
+    fn digit_in(radix: u32, c: u8) -> Option<i64> {
+        let d = match c {
+            b'0'..=b'9' => (c - b'0') as i64,
+            b'a'..=b'f' => (c - b'a') as i64 + 10,
+            b'A'..=b'F' => (c - b'A') as i64 + 10,
+            _ => return None,
+        };
+        if d < radix as i64 {
+            Some(d)
+        } else {
+            None
+        }
+    }
+
+    /// Reference for the documented integer grammar (README/help + the doc comment of Integer::try_parse):
+    /// [sign] [0]? [xXoObB | #] [sign] digits, at most one sign, decimal when it starts with a digit.
+    /// Values beyond i32 are Bad.  Written over bytes with an index, i64 accumulation.
+    pub fn int(s: &[u8], require_sign: bool) -> IntR {
+        let n = s.len();
+        if n == 0 {
+            return IntR::NotInt;
+        }
+        let mut i = 0;
+        let mut neg = false;
+        let mut signs = 0;
+        if s[i] == b'+' || s[i] == b'-' {
+            neg = s[i] == b'-';
+            signs += 1;
+            i += 1;
+        }
+        if require_sign && signs == 0 {
+            return IntR::Bad;
+        }
+        let mut lead0 = false;
+        if i < n && s[i] == b'0' {
+            lead0 = true;
+            i += 1;
+        }
+        let radix: u32;
+        if i == n {
+            if lead0 {
+                return IntR::Val(0);
+            }
+            // only a sign
+            return if signs > 0 { IntR::Bad } else { IntR::NotInt };
+        }
+        match s[i] {
+            b'b' | b'B' => {
+                radix = 2;
+                i += 1;
+            }
+            b'o' | b'O' => {
+                radix = 8;
+                i += 1;
+            }
+            b'x' | b'X' => {
+                radix = 16;
+                i += 1;
+            }
+            b'#' => {
+                if lead0 {
+                    return IntR::Bad;
+                }
+                radix = 10;
+                i += 1;
+            }
+            b'0'..=b'9' => radix = 10,
+            b'+' | b'-' => return IntR::Bad,
+            _ => {
+                return if lead0 || signs > 0 { IntR::Bad } else { IntR::NotInt };
+            }
+        }
+        if i < n && (s[i] == b'+' || s[i] == b'-') {
+            neg = s[i] == b'-';
+            signs += 1;
+            i += 1;
+        }
+        if signs > 1 {
+            return IntR::Bad;
+        }
+        // what a token that stops being an integer here is: invalid if anything already committed it to be one
+        let committed = signs > 0 || lead0 || radix == 10;
+        let stop = if committed { IntR::Bad } else { IntR::NotInt };
+        if i == n {
+            return stop;
+        }
+        let mut v: i64 = 0;
+        while i < n {
+            match digit_in(radix, s[i]) {
+                None => return stop,
+                Some(d) => {
+                    v = v * radix as i64 + d;
+                    if v > i32::MAX as i64 {
+                        return IntR::Bad;
+                    }
+                }
+            }
+            i += 1;
+        }
+        IntR::Val(if neg { -v } else { v })
+    }
+
+    pub fn label_start(c: u8) -> bool {
+        c.is_ascii_alphabetic() || c == b'_'
+    }
+    pub fn label_char(c: u8) -> bool {
+        c.is_ascii_alphanumeric() || c == b'_'
+    }
+}
